@@ -25,6 +25,9 @@ From LCP Require Import Accel.AesNiProofs.
 From LCP Require Import Accel.AesNiKeyProofs.
 From LCP Require Import Crypto.AesCtrProofs.
 From LCP Require Import Crypto.AesTop.
+From LCP Require Import Gen.Repo_aes_sel.
+From LCP Require Import Crypto.AesSelect.
+From LCP Require Import Crypto.AesSelectProofs.
 Import ListNotations.
 Local Open Scope N_scope.
 
@@ -198,3 +201,22 @@ Theorem C02_aesctr_portable_over_fips197_partial : forall key nonce any chunks,
     map (@length N) outs = map (@length N) chunks.
 Proof. exact aesctr_portable_over_fips197. Qed.
 Print Assumptions C02_aesctr_portable_over_fips197_partial.
+
+(* the library as a whole, for every outcome of its implementation selection: cpu = the CPU reports
+   AES-NI, selftest = the first-use self-test of the AES-NI code passed (it fails e.g. when its
+   allocation is refused).  x_lib_aesctr interprets the selection logic of crypto_aes.c and
+   crypto_aesctr.c regenerated from the C text (Gen/Repo_aes_sel.v; model Crypto/AesSelect.v, where a
+   callee applied to a key object of the other module's kind is Fault) around the stream model.
+   Partial: OpenSSL is not modelled; what is ASSUMED about it is exactly the hypothesis on ossl. *)
+Theorem C02_aesctr_any_selection_is_ctr_of_fips197_partial :
+  forall (ossl : list N -> list N -> list N),
+    (forall key b, (length key = 16 \/ length key = 32)%nat -> ossl key b = AES_encrypt key b) ->
+    forall cpu selftest key nonce any chunks,
+      (length key = 16 \/ length key = 32)%nat ->
+      st_wf any -> N.of_nat (length (concat chunks)) < two64 ->
+      exists s' outs,
+        x_lib_aesctr cpu selftest ossl key nonce any chunks = Ok (s', outs) /\
+        concat outs = ctr_spec (AES_encrypt key) nonce (concat chunks) /\
+        map (@length N) outs = map (@length N) chunks.
+Proof. exact aesctr_any_selection_is_ctr_of_fips197. Qed.
+Print Assumptions C02_aesctr_any_selection_is_ctr_of_fips197_partial.
